@@ -30,6 +30,9 @@ written in residual form - ``w`` is a state variable (input and output), an extr
 ``r_<w> = diag(state) (G(inputs) - w)`` is its residual, ``io.residual_to_state_variable = {r_w: w}`` and the
 discipline solves its own state equations (``state_equations_are_solved = True``: it returns
 ``w = G(inputs)``, ``r_w = 0`` and the partials ``dr/dw = -diag(state)``, ``dr/du = diag(state) dG/du``).
+With ``build_disciplines(..., state_solved=False)`` the discipline leaves its state to the MDA instead
+(``state_equations_are_solved = False``, what MDANewtonRaphson / MDAQuasiNewton resolve): it returns
+``w`` unchanged (``dw/dw = I``) and ``r_w = diag(state) (G(inputs) - w)`` with its partials.
 The mathematical system, hence the reference model, is unchanged.
 
 For an output ``o`` of a discipline::
@@ -400,7 +403,7 @@ def _harness_class(grammar_type: str):
         default_grammar_type = Discipline.GrammarType(grammar_type)
 
         def __init__(self, model: CoupledSystem, index: int, defaults: dict, jac_format: str = "dense", keep_log: bool = False,
-                     reject_non_finite: bool = False):
+                     reject_non_finite: bool = False, state_solved: bool = True):
             super().__init__(name=model.disc_names[index])
             self.reject_non_finite = reject_non_finite
             self.model = model
@@ -417,7 +420,8 @@ def _harness_class(grammar_type: str):
                 in_names.append(w)
                 out_sizes[r] = model.sizes[w]
                 self.io.residual_to_state_variable = {r: w}
-                self.io.state_equations_are_solved = True
+                self.io.state_equations_are_solved = state_solved
+            self.state_solved = state_solved
             self.io.input_grammar.update_from_data({n: np.zeros(model.sizes[n]) for n in in_names})
             self.io.output_grammar.update_from_data({n: np.zeros(s) for n, s in out_sizes.items()})
             self.io.input_grammar.defaults.update({n: np.array(defaults[n], dtype=float) for n in in_names})
@@ -433,7 +437,12 @@ def _harness_class(grammar_type: str):
             out = self.model.run(self.index, input_data)
             if self.state is not None:  # the discipline solves its own state equation: r = M (G(u) - w) = 0
                 w, r, diag = self.state
-                out[r] = diag * (out[w] - out[w])
+                if self.state_solved:
+                    out[r] = diag * (out[w] - out[w])
+                else:  # the MDA resolves the state: w is left as it is, the residual is returned
+                    w_in = np.array(input_data[w], dtype=float)
+                    out[r] = diag * (out[w] - w_in)
+                    out[w] = w_in
             return out
 
         def _compute_jacobian(self, input_names=(), output_names=()):
@@ -448,6 +457,9 @@ def _harness_class(grammar_type: str):
                     jac[o][w] = np.zeros((self.model.sizes[o], size))
                 jac[r] = {i: diag[:, None] * b for i, b in jac[w].items()}
                 jac[r][w] = -np.diag(diag)
+                if not self.state_solved:  # w is returned as it was received: dw/dw = I, dw/d(other inputs) = 0
+                    jac[w] = {i: np.zeros_like(b) for i, b in jac[w].items()}
+                    jac[w][w] = np.eye(size)
             if self.jac_format == "sparse":
                 jac = {o: {i: csr_array(b) for i, b in row.items()} for o, row in jac.items()}
             elif self.jac_format == "operator":
@@ -459,20 +471,21 @@ def _harness_class(grammar_type: str):
     return HarnessDiscipline
 
 
-def HarnessDiscipline(model, index, defaults, jac_format="dense", grammar_type="SimpleGrammar", keep_log=False, reject_non_finite=False):  # noqa: N802
+def HarnessDiscipline(model, index, defaults, jac_format="dense", grammar_type="SimpleGrammar", keep_log=False, reject_non_finite=False,  # noqa: N802
+                      state_solved=True):
     """Create the gemseo discipline of ``model.payload['discs'][index]``."""
-    return _harness_class(grammar_type)(model, index, defaults, jac_format, keep_log, reject_non_finite)
+    return _harness_class(grammar_type)(model, index, defaults, jac_format, keep_log, reject_non_finite, state_solved)
 
 
 def build_disciplines(model: CoupledSystem, defaults: dict, grammar_type: str = "SimpleGrammar", keep_log: bool = False,
-                      reject_non_finite: bool = False) -> list:
+                      reject_non_finite: bool = False, state_solved: bool = True) -> list:
     """One gemseo discipline per payload discipline, in payload (list) order.
 
     ``defaults`` gives the default value of every variable (design inputs and coupling start
     values): ``{name: list of floats}``.
     """
     return [
-        HarnessDiscipline(model, i, defaults, d.get("jac", "dense"), grammar_type, keep_log, reject_non_finite)
+        HarnessDiscipline(model, i, defaults, d.get("jac", "dense"), grammar_type, keep_log, reject_non_finite, state_solved)
         for i, d in enumerate(model.payload["discs"])
     ]
 
@@ -502,6 +515,7 @@ def coupled_systems(
     state_form: bool = False,
     operator_jacobians: bool = False,
     input_scales: bool = False,
+    acyclic: bool = False,
     q_range: tuple[float, float] = (0.05, 0.3),
     max_size: int = 3,
 ):
@@ -522,6 +536,7 @@ def coupled_systems(
         state_form: allow disciplines written in residual / state form (see the module docstring).
         operator_jacobians: allow disciplines whose partial Jacobians are matrix-free JacobianOperator's.
         input_scales: allow design inputs whose whole effect is scaled by 1e-10 or 1e-13 (badly scaled unit).
+        acyclic: feed-forward system: weakly coupled disciplines only, no cycle, no self-coupling.
     """
     n = draw(st.integers(min_disc, max_disc))
     if all_strong is None:
@@ -529,7 +544,10 @@ def coupled_systems(
     if nonlinear is None:
         nonlinear = draw(st.integers(0, 2)) == 0
     # groups: list of lists of discipline ids 0..n-1 (ids are positions in the topological layout)
-    if all_strong:
+    if acyclic:
+        all_strong = False
+        groups = [[i] for i in range(n)]
+    elif all_strong:
         groups = [list(range(n))]
     else:
         groups, k = [], 0
@@ -561,7 +579,7 @@ def coupled_systems(
                 for j in g:
                     if i != j and draw(st.integers(0, 3)) == 0:
                         reads[i].add(j)
-        elif draw(st.integers(0, 3)) == 0:
+        elif not acyclic and draw(st.integers(0, 3)) == 0:
             reads[g[0]].add(g[0])  # self-coupled singleton
     for i in range(n):
         for j in range(n):
